@@ -215,8 +215,8 @@ class Function:
                 self.args.append((am.group(1), am.group(2)))
                 self.decls[am.group(1)] = am.group(2)
         else:
-            m = re.match(r"(?:const|static(?: mut)?) (.*): (.*) = \{$", self.header)
-            self.ret = m.group(2) if m else None
+            m = re.match(r"(?:const|static(?: mut)?) .*\]?: ([^:].*) = \{$", self.header)
+            self.ret = m.group(1) if m else None
         cur = None
         for raw in self._lines:
             line = raw.strip()
@@ -583,8 +583,17 @@ class MirDump:
                         name = line[3:].split("(")[0]
                     kind = "fn"
                 else:
-                    m = re.match(r"(?:const|static(?: mut)?) (.*?): ", line)
-                    name = m.group(1) if m else line
+                    body = re.sub(r"^(?:const|static(?: mut)?) ", "", line)
+                    name = body
+                    depth = 0
+                    for k, ch in enumerate(body):
+                        if ch in "<([":
+                            depth += 1
+                        elif ch in ">)]" and not (ch == ">" and body[k - 1] == "-"):
+                            depth -= 1
+                        elif ch == ":" and depth == 0 and body[k:k + 2] == ": " and body[k - 1] != ":":
+                            name = body[:k]
+                            break
                     kind = "promoted" if "::promoted[" in name else "const"
                 f = Function(name, line, lines[i + 1:j], kind)
                 f.lineno = i + 1
